@@ -386,7 +386,7 @@ inline void workerLoop(Harness &h, const DriverArgs &a, int w, int W, uint64_t s
       for (auto &k : o.stateKeys) if (keys.insert(k).second) nk.push(k);
       if (nk.size()) line["keys"] = nk;
     }
-    if (samples < 2) { samples++; line["sample"] = plan; }
+    if (samples < 2) { std::string d = plan.dump(); if (d.size() < 20000) { samples++; line["sample"] = plan; } }
     if (o.violated) {
       Json v = Json::object();
       v["class"] = o.vclass; v["detail"] = o.detail; v["sig"] = o.signature;
